@@ -99,6 +99,16 @@ def step (c : Cfg ι μ) : Move (Change ι μ) → Cfg ι μ
 
 def run (c : Cfg ι μ) (ms : List (Move (Change ι μ))) : Cfg ι μ := ms.foldl step c
 
+/-- What the driver prints: the answer of every `emit` move (`none` = not enabled) and the final state.
+`runOut_spec` (MachineLemmas) ties it to `run`. -/
+def runOut (st : MState ι μ) : List (Move (Change ι μ)) → List (Option (Change ι μ)) × MState ι μ
+  | [] => ([], st)
+  | .recv e :: ms => runOut (recv st e) ms
+  | .emit :: ms =>
+    match emit st with
+    | some (o, st') => let r := runOut st' ms; (some o :: r.1, r.2)
+    | none => let r := runOut st ms; (none :: r.1, r.2)
+
 /-! ### DropExcess -/
 
 /-- State of the `DropExcess` goroutine: `hasMessage`/`message`. -/
@@ -126,5 +136,13 @@ def dstep {α : Type} (c : DCfg α) : Move α → DCfg α
     | none => c
 
 def drun {α : Type} (c : DCfg α) (ms : List (Move α)) : DCfg α := ms.foldl dstep c
+
+def drunOut {α : Type} (st : DState α) : List (Move α) → List (Option α) × DState α
+  | [] => ([], st)
+  | .recv e :: ms => drunOut (drecv st e) ms
+  | .emit :: ms =>
+    match demit st with
+    | some (o, st') => let r := drunOut st' ms; (some o :: r.1, r.2)
+    | none => let r := drunOut st ms; (none :: r.1, r.2)
 
 end ScVerif.C09
